@@ -271,6 +271,19 @@ def plan_C01(tier):
     }
 
 
+def custom_consumer_items(tier, **extra):
+    """the concurrent-stream source driven by a consumer the caller wrote against the public Consumer trait (a synchronous
+    one: send awaits the future and answers Empty; progress answers Empty or pends forever)"""
+    items = []
+    for cons in (1, 2):
+        for stack in ("", "m", "t", "e", "mt"):
+            items += co(src="stream", l=2, i=2, p=1, term="collect", stack=stack or None, tn=1, wp=1, cons=cons, **extra)
+        items += co(src="stream", l=3, i=3, p=1, term="collect", wp=1, cons=cons, sw=0, **extra)
+        items += co(src="vec", l=3, term="collect", stack="m", wp=1, cons=cons, **extra)
+        items += co(src="stream", l=0, i=0, p=1, term="collect", wp=1, cons=cons, **extra)
+    return items
+
+
 def plan_C03(tier):
     items = cross_cutting(tier)
     items += co_small(tier, ["for_each", "try_for_each", "collect"], stacks=("", "m", "lt"), lm=1, tn=1, st=1)
@@ -278,6 +291,7 @@ def plan_C03(tier):
         items += grp("sgroup", init=n, mm=n, ops=0, p=0, i=0)
         items += grp("sgroup", keyed=1, init=n, mm=n + 1, ops=1, rm=0, p=1, i=0, dev=2)
         items += grp("fgroup", init=n, mm=n + 1, ops=1, rm=0, p=1, dev=2)
+    items += custom_consumer_items(tier, st=1)
     return {"items": items, "bounds": "as C01 (stale wake-ups aimed at finished children included) plus concurrent-stream drivers with 1 stale wake-up"}
 
 
@@ -353,6 +367,7 @@ def plan_C02(tier):
         items += wide("fut", list(FUT_CONT), tier, dr=1, pa=1)
         items += wide("str", list(STR_CONT), tier, dr=1, pa=1)
     items += dropwake_items(tier, st=1)
+    items += custom_consumer_items(tier, dr=1, pa=1)
     stacks = ("", "m", "e", "lt", "ml") if tier == "quick" else ("", "m", "e", "t", "l", "lt", "ml", "me", "mm", "mlt")
     items += co_small(tier, ["for_each", "try_for_each", "collect", "collect_result"], stacks=stacks, lm=1, tn=1, dr=1, pa=1)
     plan = {"items": items,
@@ -591,6 +606,11 @@ def plan_C13(tier):
         for stack in ("lt", "lmt", "let"):
             items += co(src="stream", l=ln, i=ln, p=0 if len(stack) > 2 else 1, term="for_each", stack=stack, lm=lm, tn=tn, wp=1, sw=0)
         items += co(src="vec", l=ln, term="for_each", stack="lt", lm=lm, tn=tn, wp=2 if ln == 3 else 1)
+    # many closure futures in flight when the source ends (every one Pending on its first poll, wlz=1): the final flush
+    # must wait for all of them - 33, 40 and 70 items, unlimited and with a limit above 32
+    for ln in (33, 40, 70):
+        items += co(src="vec", l=ln, term="for_each", wp=0, wlz=1, dev=1)
+        items += co(src="stream", l=ln, i=ln, p=0, term="for_each", stack="l", lm=ln - 1, wp=0, wlz=1, dev=1)
     # never-completing closure futures: saturation and structured completion
     for wnv in (1, 2, 3):
         items += co(src="stream", l=3, i=3, p=1, term="for_each", stack="l", lm=2, wp=1, wnv=wnv)
@@ -620,6 +640,9 @@ def plan_C14(tier):
             items += co(src="stream", l=3, i=3, p=1, term=term, stack="l" if term == "try_for_each" else None, lm=lm, wp=2, sw=0)
         for stack in ("m", "e", "ml", "lm") + (("mel", "tl") if tier != "quick" else ()):
             items += co(src="stream", l=2, i=2, p=1, term=term, stack=stack, lm=1, tn=2, wp=1, dr=1)
+        # many work futures in flight when the source ends (each Pending on its first poll): every one of them is awaited
+        for ln in (33, 40):
+            items += co(src="vec", l=ln, term=term, wp=0, wlz=1, dev=1)
         # adapters between the limit and the fallible terminal must pass a Break upwards (back-pressure path)
         for stack in ("lt", "tl", "lmt", "let"):
             for lm in (1, 2):
@@ -678,6 +701,11 @@ def plan_C15(tier):
             items += co(src="stream", l=3, i=3, p=1, term="try_for_each", stack=stack, tn=a, tn2=b, wp=1, ee=0)
     items += co(src="stream", l=0, i=0, p=1, term="collect", stack="me", wp=1)
     items += co(src="vec", l=0, term="collect", stack="m", wp=1)
+    items += custom_consumer_items(tier)
+    # many per-item futures in flight when the source ends
+    for ln in (33, 40):
+        items += co(src="vec", l=ln, term="collect", stack="m", wp=0, wlz=1, dev=1)
+        items += co(src="stream", l=ln, i=ln, p=0, term="collect", stack="e", wp=0, wlz=1, dev=1)
     return {"items": items, "bounds": "every adapter stack of depth <=2 (3 thorough) over {map, enumerate, take(n), limit(m)} x terminal {collect, for_each, try_for_each} x source length {0,2,3} x all completion orders of the per-item futures (P<=1) x source readiness patterns; take n in {0,1,2,3,4}"}
 
 
